@@ -58,6 +58,11 @@ def register_forward_ref(
 
     if not isinstance(annotation, ForwardRef):
         return
+    if (global_vars or isinstance(forward_refs, dict)) and not evaluate_only:
+        # typing caches generic aliases like List['Node'] process-wide, so the ForwardRef object inside
+        # them is shared by every declaration that spells the same annotation: work on a private copy,
+        # otherwise the class resolved for one declaration leaks into a same-named one in another module
+        annotation = ForwardRef(annotation.__forward_arg__)
     evaluated = None
     if annotation.__forward_evaluated__:
         evaluated = True
